@@ -12,24 +12,29 @@ EXPLANATION = (
     'scheduler. Job weights (1..capacity), the action of every step (start next job / let job i leave) and a per-step '
     'drain bit (do pending wake-ups run before the next action) are symbolic; at every quiescent point the harness '
     'asserts no over-grant, capacity accounting, FIFO (no job inside while an earlier arrival waits) and head-of-queue '
-    'liveness. Only "Confirmed over all paths" discharges a shard. Bounded: 3 jobs, capacity 4, k steps (quick k=4 with '
-    'symbolic drain bits; thorough k=5 with symbolic drain bits plus k=6 and k=7 with every step drained); the quantifier '
-    '"any number of jobs" is NOT covered beyond 3 jobs.'
+    'liveness. Only "Confirmed over all paths" discharges a shard. Bounded: capacity 4; quick: 3 jobs, k=4 steps with '
+    'symbolic drain bits; thorough: 3 jobs k=5 with symbolic drain bits, 3 jobs k=6 and 4 jobs k=7 with every step drained; '
+    'the quantifier "any number of jobs" is NOT covered beyond 4 jobs.'
 )
 SRC = 'batch/batch/semaphore.py'
 HM = 'harness.C16_fifo'
 
 
-def params(k):
-    return ([('w0', 'int', 1, 4), ('w1', 'int', 1, 4), ('w2', 'int', 1, 4)]
-            + [(f'a{i}', 'int', 0, min(i, 3)) for i in range(1, k)] + [(f'd{i}', 'bool') for i in range(k)])
+def params(k, nt=3):
+    return ([(f'w{i}', 'int', 1, 4) for i in range(nt)]
+            + [(f'a{i}', 'int', 0, min(i, nt)) for i in range(1, k)] + [(f'd{i}', 'bool') for i in range(k)])
 
 
 def describe(a, meta):
-    k = meta['k']
+    k, nt = meta['k'], meta['nt']
     acts = ['start'] + [('start' if a[f'a{i}'] == 0 else f'leave{a[f"a{i}"] - 1}') for i in range(1, k)]
-    return ('FIFOWeightedSemaphore(4) weights=(%s,%s,%s) schedule=' % (a['w0'], a['w1'], a['w2'])
+    return ('FIFOWeightedSemaphore(4) weights=(%s) schedule=' % ','.join(str(a[f'w{i}']) for i in range(nt))
             + ' '.join(x + ('+drain' if a[f'd{i}'] else '') for i, x in enumerate(acts)))
+
+
+def group(name, k, nt, shard_on, all_drained=False):
+    return sched.gen_shards(name, HM, params(k, nt), shard_on, entry=(f'check_{nt}', f'reach_{nt}'), prefix=name[4:] + '_',
+                            const={f'd{i}': True for i in range(k)} if all_drained else None, meta={'k': k, 'nt': nt})[1]
 
 
 def run(R):
@@ -40,20 +45,19 @@ def run(R):
                 if isinstance(f, (ast.FunctionDef, ast.AsyncFunctionDef)):
                     R.encode(f'{SRC}:{f.lineno} {n.name}.{f.name}', ast.get_source_segment(text, f))
     groups = []
+    W = [1, 2, 3, 4]
     if R.tier == 'quick':
         pct = 150
-        groups.append(sched.gen_shards('C16_k4', HM, params(4), {'a1': [0, 1], 'w0': [1, 2, 3, 4]}, prefix='k4_',
-                                       meta={'k': 4})[1])
+        groups.append(group('C16_k4', 4, 3, {'a1': [0, 1], 'w0': W}))
         R.bounds = {'jobs': 3, 'capacity': 4, 'weights': '1..4 symbolic', 'steps': 'k=4, drain bits symbolic'}
     else:
         pct = 1300
-        groups.append(sched.gen_shards('C16_k5', HM, params(5), {'a1': [0, 1], 'a2': [0, 1, 2], 'w0': [1, 2, 3, 4]},
-                                       prefix='k5_', meta={'k': 5})[1])
-        for k in (6, 7):
-            groups.append(sched.gen_shards(f'C16_k{k}d', HM, params(k), {'a1': [0, 1], 'a2': [0, 1, 2], 'w0': [1, 2, 3, 4]},
-                                           const={f'd{i}': True for i in range(k)}, prefix=f'k{k}d_', meta={'k': k})[1])
-        R.bounds = {'jobs': 3, 'capacity': 4, 'weights': '1..4 symbolic',
-                    'steps': 'k=5 with symbolic drain bits; k=6 and k=7 with every step drained'}
+        groups.append(group('C16_k5', 5, 3, {'a1': [0, 1], 'w0': W, 'd0': [False, True], 'd1': [False, True]}))
+        groups.append(group('C16_k6d', 6, 3, {'a1': [0, 1], 'w0': W}, all_drained=True))
+        groups.append(group('C16_n4k7d', 7, 4, {'a1': [0, 1], 'w0': W, 'w1': W}, all_drained=True))
+        R.bounds = {'capacity': 4, 'weights': '1..4 symbolic',
+                    'steps': '3 jobs: k=5 with symbolic drain bits, k=6 (the complete life cycle of 3 jobs) with every '
+                             'step drained; 4 jobs: k=7 with every step drained'}
     R.assume('jobs are started in index order (jobs differ only by their symbolic weights); step 0 is a start',
              'every job uses the semaphore through `async with sem(w)` (as worker.py does) and releases exactly what it acquired',
              'no cancellation is injected (not part of C16); weights are integers 1..capacity',
